@@ -11,11 +11,57 @@ pub struct Entry {
     pub worker: Option<fn(&Ctx, WorkerCtx, &[String])>,
 }
 
+pub mod c01;
+pub mod c02;
+pub mod c03;
+pub mod c04;
+pub mod c05;
+pub mod c06;
+pub mod c07;
 pub mod c08;
+pub mod c09;
+pub mod c10;
+pub mod c11;
+pub mod c12;
+pub mod c13;
+pub mod c14;
+pub mod c15;
+pub mod c16;
+pub mod c17;
+pub mod c18;
+pub mod c19;
+pub mod c20;
+
+/// Properties whose module exports `pub fn worker(&Ctx, WorkerCtx, &[String])`.
+fn worker_of(id: &str) -> Option<fn(&Ctx, WorkerCtx, &[String])> {
+    match id {
+        _ => None,
+    }
+}
 
 pub fn lookup(id: &str) -> Option<Entry> {
-    Some(match id {
-        "C08" => Entry { id: "C08", run: c08::run, replay: c08::replay, worker: None },
+    let (id, run, replay): (&'static str, fn(&Ctx) -> Result<Report, String>, fn(&Value) -> Result<(bool, String), String>) = match id {
+        "C01" => ("C01", c01::run, c01::replay),
+        "C02" => ("C02", c02::run, c02::replay),
+        "C03" => ("C03", c03::run, c03::replay),
+        "C04" => ("C04", c04::run, c04::replay),
+        "C05" => ("C05", c05::run, c05::replay),
+        "C06" => ("C06", c06::run, c06::replay),
+        "C07" => ("C07", c07::run, c07::replay),
+        "C08" => ("C08", c08::run, c08::replay),
+        "C09" => ("C09", c09::run, c09::replay),
+        "C10" => ("C10", c10::run, c10::replay),
+        "C11" => ("C11", c11::run, c11::replay),
+        "C12" => ("C12", c12::run, c12::replay),
+        "C13" => ("C13", c13::run, c13::replay),
+        "C14" => ("C14", c14::run, c14::replay),
+        "C15" => ("C15", c15::run, c15::replay),
+        "C16" => ("C16", c16::run, c16::replay),
+        "C17" => ("C17", c17::run, c17::replay),
+        "C18" => ("C18", c18::run, c18::replay),
+        "C19" => ("C19", c19::run, c19::replay),
+        "C20" => ("C20", c20::run, c20::replay),
         _ => return None,
-    })
+    };
+    Some(Entry { id, run, replay, worker: worker_of(id) })
 }
